@@ -124,7 +124,8 @@ Proof.
     destruct (construct_byset_ok _ _ _ _ _ Hc) as [Ec Hne].
     destruct c as [|num c']; [contradiction|].
     assert (Hnum : In num l /\ reach_test (r_interval r) (sp_H0 r) 24 num = true).
-    { assert (In num (num :: c')) by (left; reflexivity). rewrite Ec in H. apply filter_In in H. exact H. }
+    { assert (In num (num :: c')) by (left; reflexivity). rewrite Ec in H. apply filter_In in H.
+      destruct H as [H1 H2]. split; [exact H1|]. unfold keep_test in H2. apply andb_true_iff in H2. apply H2. }
     destruct Hnum as [Hnl Hnr].
     apply (construct_byset_reachable (r_interval r) (sp_H0 r) 24 num ltac:(lia) ltac:(lia)) in Hnr.
     destruct Hnr as [j [Hj Ej]]. pose proof (Hrange l eq_refl num Hnl) as Hnb.
